@@ -564,6 +564,54 @@ pub fn run(tier: Tier) -> RunOutcome {
         }
     }
 
+    // ---- switching the target between solves: each solve's bytes go where the
+    // target pointed at that time, nothing is lost, duplicated or re-sent
+    if ops.len() >= 2 && chance("switch_targets", 1, 3) {
+        with_sim(|s| s.clocks[0] = Clock::new(profile.clone()));
+        let mut st = settings.clone();
+        st.time_limit = ops[0].time_limit;
+        st.max_iter = ops[0].max_iter;
+        if let Ok(mut sv) = sv_new(5, &prob, st) {
+            let id = with_sim(|s| s.new_sink(plan.clone()));
+            sv.print_to_stream(Box::new(SimWriter { id }));
+            let mut ok = true;
+            for (k, op) in ops.iter().enumerate() {
+                if k == 1 {
+                    sv.print_to_buffer();
+                }
+                if k > 0 {
+                    sv.settings.time_limit = op.time_limit;
+                    sv.settings.max_iter = op.max_iter;
+                }
+                if op.flip_presolve {
+                    sv.settings.presolve_enable = !sv.settings.presolve_enable;
+                }
+                if op.flip_equil {
+                    sv.settings.equilibrate_enable = !sv.settings.equilibrate_enable;
+                }
+                if sv_solve(5, &mut sv).is_err() {
+                    ok = false;
+                    break;
+                }
+            }
+            if ok {
+                probe("c20_target_switched_between_solves");
+                let mut joined = with_sim(|s| s.sinks[id].accepted.clone());
+                joined.extend(sv.get_print_buffer().unwrap_or_default().as_bytes());
+                if joined != buf.as_bytes() {
+                    out.violations.push(Violation::new(
+                        "C20.target_switch_changes_bytes",
+                        format!(
+                            "first solve to a stream, later solves to a buffer: {} bytes in total, {} when everything goes to one buffer",
+                            joined.len(),
+                            buf.len()
+                        ),
+                    ));
+                }
+            }
+        }
+    }
+
     // ---- file
     let path = work_file("out.txt");
     with_sim(|s| s.clocks[0] = Clock::new(profile.clone()));
